@@ -411,8 +411,10 @@ PARSE_RULE = ("inputs = bases x next byte x continuation, where bases = (BFS wit
               "stop | completion of the successor | for rejected bytes: completion of the source and token completions ('5', '0', "
               "quote, ...; thorough: all distinct token completions); plus depth limit x syntactic context with the real constant "
               "(every value-start state inflated to depth 10000/10001, siblings at the deepest level), digit runs 1..24 x next byte, "
-              "whitespace runs 0..17 x byte x padding, TLC random walks (-simulate), corpus files, random documents with byte "
-              "mutations; every input under nil / fresh / reused-and-grown / after-failure / handler-grown buffers; "
+              "whitespace runs 0..17 x byte x padding, string runs 0..40 and around the powers of two x (every byte value, escapes, backslash "
+              "runs, multi-byte and truncated runes) x tails, TLC random walks (-simulate), corpus files, random documents with byte "
+              "mutations; every input under nil / fresh / reused-and-grown / after-failure / handler-grown buffers, and in the caller's own "
+              "array refilled with the input after a same-length document went through the same Buffer; "
               "distinct = distinct input bytes; non-trivial = longer than one byte")
 
 CHECKS = {
@@ -571,7 +573,9 @@ CHECKS.update({
             "rule": "decoders = 8 program kinds (all-typed, all-SkipValue, all-SkipValueFast, all-return-0, ValueReader, Decode forms, random "
                     "mixes with and without SkipValueFast) with a recorded per-member choice stream, nil or re-entrantly shared Buffer; "
                     "documents = tree shapes, (machine states x byte classes x completion), TLC walks, corpus, random documents and "
-                    "mutations; distinct = distinct (document, program kind, seed); non-trivial = at least one member choice",
+                    "mutations; documents at and just below the nesting limit decoded by recursing through the handlers with no Buffer, a new one, "
+                    "and a long-lived one that the same decoder took through an over-deep / unclosed / limit-deep document before; "
+                    "distinct = distinct (document, program kind, seed); non-trivial = at least one member choice",
             "technique": "TLA+ compositionality invariant (member slices re-parse to the same subtree/offset, R1 exhaustive) + TLC validation of recorded API-composition decoders (R3)",
             "level_text": "R1 proves on all structural strings up to the bound that every member slice parses on its own to the member's "
                           "subtree and end offset; the recorded decoders (written only against the public API) are checked by TLC for "
@@ -581,7 +585,7 @@ CHECKS.update({
 
 CHECKS.update({
     "C14": {"family": "hist", "level": "model_checking",
-            "rule": "all ordered pairs of steps on one Buffer - first (document nested 1, 2, 3, 5, 64, 625, 1000, 5000, 6000 deep or at / around / beyond the depth limit, function), then (document deep but legal or at / around / beyond the limit, function) -, and histories of 2..6 calls on one Buffer over Valid, SkipValue, SkipValueFast, HandleArrayValues, HandleObjectValues x a document "
+            "rule": "all ordered pairs of steps on one Buffer - first (document nested 1, 2, 3, 5, 64, 625, 1000, 5000, 6000 deep, 10002, 10003, 10004 deep, or at / around / beyond the depth limit, function), then (document deep but legal or at / around / beyond the limit, function) -, and histories of 2..6 calls on one Buffer over Valid, SkipValue, SkipValueFast, HandleArrayValues, HandleObjectValues x a document "
                     "alphabet with one representative per outcome class (shallow/deep ok, syntax error at depth, depth-limit error, truncated deep "
                     "nests, 10000/10001 nests, random containers and mutations) x 7 handler behaviours (return 0; exact offset via SkipValue / "
                     "SkipValueFast on the enclosing buffer; abort with an error at call k; recursive nested traversals sharing the buffer; Valid on "
